@@ -247,13 +247,19 @@ def find_header(text, header, mask):
     return hits[0][0], hits[0][1]
 
 
-def extract_item(repo, relfile, header):
+def extract_item(repo, relfile, header, within=None):
     path = os.path.join(repo, relfile)
     try:
         text = open(path).read()
     except OSError:
         raise LostAnchor('file missing: %s' % relfile)
     mask = code_mask(text)
+    if within:
+        # `in:` of an /*@item: the item is looked for inside the brace block of that (impl) header only; everything
+        # outside the block is blanked in the mask, so offsets stay those of the file
+        ws, wob = find_header(text, within, mask)
+        wcb = match_close(text, wob, mask)
+        mask = bytearray(1 if (m and wob < k < wcb) else 0 for k, m in enumerate(mask))
     s, ob = find_header(text, header, mask)
     if text[ob] == ';':
         return text, s, ob, ob
@@ -1072,16 +1078,19 @@ def build_item(repo, text, em, report):
     head = lines[0].strip()
     relfile, header = [p.strip() for p in head.split(' :: ', 1)]
     prefix, drops, maps = [], [], []
+    within = None
     for ln in lines[1:]:
         s = ln.strip()
-        if s.startswith('prefix:'):
+        if s.startswith('in:'):
+            within = s[len('in:'):].strip()
+        elif s.startswith('prefix:'):
             prefix.append(s[len('prefix:'):].strip())
         elif s.startswith('dropfield:'):
             drops.append(s[len('dropfield:'):].strip())
         elif s.startswith('map:'):
             a, b = s[len('map:'):].split('=>')
             maps.append((a.strip().strip('`'), b.strip().strip('`')))
-    src, s, ob, cb = extract_item(repo, relfile, header)
+    src, s, ob, cb = extract_item(repo, relfile, header, within)
     item = strip_comments(src[s:cb + 1])
     # drop attributes on fields/variants and visibility
     item = re.sub(r'#\[[^\]]*\]\s*', '', item)
